@@ -32,7 +32,7 @@ EmptyDump == [count |-> 0, pat |-> 0, matches |-> <<>>, seq |-> 0]
 EmptyRun ==
   [id |-> 0, scenario |-> "", items |-> <<>>, cur |-> 0, pat |-> 0, started |-> {}, finished |-> {},
    handles |-> {}, dropping |-> {}, lastDump |-> EmptyDump, preRestart |-> EmptyDump, restartSeq |-> 0, restartClear |-> FALSE,
-   updatedSince |-> TRUE, tick |-> [seq |-> 0, pat |-> 0, stream |-> 0, before |-> EmptyDump], lastTick |-> [seq |-> 0, rseq |-> 0, running |-> FALSE, changed |-> FALSE],
+   updatedSince |-> TRUE, tick |-> [seq |-> 0, pat |-> 0, stream |-> 0, before |-> EmptyDump], lastTick |-> [seq |-> 0, rseq |-> 0, running |-> FALSE, changed |-> FALSE], wokenSeq |-> 0,
    pendingClear |-> FALSE, cloneStream |-> 0, obsSeq |-> <<>>, gone |-> {}, updSinceDump |-> FALSE, snLoads |-> {}, snArms |-> {}, tryFails |-> {}, runEnds |-> {}, lastSite |-> <<>>, notifies |-> {}, stores |-> {}, baseStream |-> <<>>, dropsSeen |-> {}, nucleoDropping |-> FALSE, aborted |-> FALSE, quiescent |-> FALSE]
 
 SeqToSet(q) == {q[k] : k \in 1..Len(q)}
@@ -125,7 +125,9 @@ ActiveFails(run, n, tid) ==
 \* ---- C13 ------------------------------------------------------------------------------------------------
 EndFails(run, e) ==
   IF run.aborted THEN {} ELSE
-  (IF run.lastTick.running /\ run.lastTick.seq > 0
+  \* a user who edits the pattern or restarts after that tick ticks again on its own account (and thereby cancels the
+  \* run the tick had promised a notification for): the promise only stands while the user just waits
+  (IF run.lastTick.running /\ run.lastTick.seq > 0 /\ run.wokenSeq < run.lastTick.seq
    THEN Bad(\E nn \in run.notifies : nn[1] > run.lastTick.seq, "lost_wakeup_tick_reported_running_but_no_notify_followed")
    ELSE {})
 
@@ -209,9 +211,9 @@ Step ==
               ELSE IF e.api = "drop_injector" THEN nrun' = [nrun EXCEPT !.dropping = @ \cup {e.h}, !.obsSeq = (e.tid :> e.seq) @@ @]
               ELSE IF e.api \in {"dump", "injector"} THEN nrun' = [nrun EXCEPT !.obsSeq = (e.tid :> e.seq) @@ @]
               ELSE IF e.api = "drop_nucleo" THEN nrun' = [nrun EXCEPT !.nucleoDropping = TRUE]
-              ELSE IF e.api = "reparse" THEN nrun' = [nrun EXCEPT !.pat = e.pat, !.quiescent = FALSE]
+              ELSE IF e.api = "reparse" THEN nrun' = [nrun EXCEPT !.pat = e.pat, !.quiescent = FALSE, !.wokenSeq = e.seq]
               ELSE IF e.api = "restart" THEN
-                  nrun' = [nrun EXCEPT !.preRestart = nrun.lastDump, !.quiescent = FALSE, !.pendingClear = e.clear,
+                  nrun' = [nrun EXCEPT !.preRestart = nrun.lastDump, !.quiescent = FALSE, !.pendingClear = e.clear, !.wokenSeq = e.seq,
                                        !.updSinceDump = @ \/ e.clear]
               ELSE IF e.api = "clone_injector" THEN nrun' = [nrun EXCEPT !.cloneStream = e.stream, !.obsSeq = (e.tid :> e.seq) @@ @]
               ELSE nrun' = nrun)
